@@ -135,8 +135,9 @@ impl Abrm {
         device: &mut Ctrl,
     ) -> ControlResult<semver::Version> {
         let gencp_version: u32 = self.read_register(device, abrm::GENCP_VERSION)?;
-        let gencp_version_minor = gencp_version & 0xff;
-        let gencp_version_major = (gencp_version >> 16_i32) & 0xff;
+        // Major version is stored in bits 31:16, minor version in bits 15:0.
+        let gencp_version_minor = gencp_version & 0xffff;
+        let gencp_version_major = (gencp_version >> 16_i32) & 0xffff;
         Ok(semver::Version::new(
             u64::from(gencp_version_major),
             u64::from(gencp_version_minor),
@@ -388,8 +389,9 @@ impl Sbrm {
         device: &mut Ctrl,
     ) -> ControlResult<semver::Version> {
         let u3v_version: u32 = self.read_register(device, sbrm::U3V_VERSION)?;
-        let u3v_version_minor = u3v_version & 0xff;
-        let u3v_version_major = (u3v_version >> 16_i32) & 0xff;
+        // Major version is stored in bits 31:16, minor version in bits 15:0.
+        let u3v_version_minor = u3v_version & 0xffff;
+        let u3v_version_major = (u3v_version >> 16_i32) & 0xffff;
 
         Ok(semver::Version::new(
             u64::from(u3v_version_major),
@@ -829,7 +831,8 @@ impl ManifestEntry {
         device: &mut Ctrl,
     ) -> ControlResult<semver::Version> {
         let file_version: u32 = self.read_register(device, manifest_entry::GENICAM_FILE_VERSION)?;
-        let subminor = file_version & 0xff;
+        // Major: bits 31:24, minor: bits 23:16, subminor: bits 15:0.
+        let subminor = file_version & 0xffff;
         let minor = (file_version >> 16_i32) & 0xff;
         let major = (file_version >> 24_i32) & 0xff;
 
